@@ -134,6 +134,11 @@ def run(c, prog, ctx):
                     c.inst("R3.flag-taint", "%s: OutPoint::new(_, %s)" % (path, sv[:80]), _masked(vout),
                            "the PSET output index reaches OutPoint::new unmasked", fn.where(t["sp"]), path)
     c.floor("R3.flag-taint", 2, "extract_tx and Input::issuance_ids")
+    # what is stored as the PSET index in the first place: from_txin starts from Input::from_prevout, which must keep the
+    # outpoint's index as it is (0xffffffff of the null outpoint included — the exemption tests compare with it); C08's instance
+    if not ctx.get("no_deps"):
+        from . import c08 as _c08
+        c.borrow(_c08, "C08", prog, ctx, lambda rule, k: rule == "R5.pset-accessors" and "from_prevout" in k, "R3.stored-index", 1)
 
     # ---- R4 JSON normalisation (the function is compiled only with the json-contract feature, which is on by default; in the
     # configuration without default features there is nothing to decide, in every other one a missing anchor fails closed)
